@@ -452,23 +452,23 @@ func (x *explorer) seen(key string) bool {
 
 func (x *explorer) detail(pre []sym, rec *crashRecord, post []sym, redel bool, extra map[string]any) func() map[string]any {
 	return func() map[string]any {
-	d := map[string]any{"config": x.cfg.String(), "inputs_before_crash": scriptString(pre), "replay": map[string]any{"cfg": x.cfg, "pre": symNames(pre), "post": symNames(post)}}
-	if rec != nil {
-		d["crash"] = fmt.Sprintf("%s (effect #%d of the run)", rec.where(), rec.spec.At)
-		d["effects_before_crash"] = traceStrings(rec.trace)
-		d["last_completed_commit"] = uint64(rec.committed)
-		var es []string
-		for _, e := range rec.entries {
-			es = append(es, entryName(e))
+		d := map[string]any{"config": x.cfg.String(), "inputs_before_crash": scriptString(pre), "replay": map[string]any{"cfg": x.cfg, "pre": symNames(pre), "post": symNames(post)}}
+		if rec != nil {
+			d["crash"] = fmt.Sprintf("%s (effect #%d of the run)", rec.where(), rec.spec.At)
+			d["effects_before_crash"] = traceStrings(rec.trace)
+			d["last_completed_commit"] = uint64(rec.committed)
+			var es []string
+			for _, e := range rec.entries {
+				es = append(es, entryName(e))
+			}
+			d["durable_wal_at_crash"] = es
+			d["inputs_after_recovery"] = scriptString(post)
+			d["inflight_input_redelivered"] = redel
 		}
-		d["durable_wal_at_crash"] = es
-		d["inputs_after_recovery"] = scriptString(post)
-		d["inflight_input_redelivered"] = redel
-	}
-	for k, v := range extra {
-		d[k] = v
-	}
-	return d
+		for k, v := range extra {
+			d[k] = v
+		}
+		return d
 	}
 }
 
